@@ -315,46 +315,54 @@ def tryFromNDT (ty : Ty) (dt : NDT) : Chk Int :=
     let v ← IntervalDT.tryFromUsecs (whole + dt.usec)
     pure (if dt.negative then IntervalDT.negate v else v)
 
-/-- `Formatter::parse::<_, T>(input)` (= `parse_internal::<_, T, false>`): value and clock reads. -/
-def parse (ty : Ty) (fields : List Field) (input : Bytes) (now : Clock) : Chk (Int × Nat) := do
-  let I := ty.info
-  let st ← parseFields ty now { s := input } fields
-  let s := eatWhitespaces st.s
-  if ¬ s.isEmpty then perr
-  else
-    -- defaults from the clock
-    let (dt, reads) :=
-      if I.HAS_DATE then
-        match st.isYearSet, st.isMonthSet with
-        | true, true => (st.dt, st.reads)
-        | true, false => ({ st.dt with month := now.month }, 1)
-        | false, false => ({ st.dt with year := now.year, month := now.month }, 1)
-        | false, true => ({ st.dt with year := now.year }, 1)
-      else (st.dt, st.reads)
-    -- day of year
-    let dt ← match st.doy with
-      | none => pure dt
-      | some d =>
-        let leap := isLeapYear dt.year
-        if d = 0 ∨ (¬ leap ∧ d > 365) ∨ (leap ∧ d > 366) then perr
-        else do
-          let (month, day) ← theMonthDayOfDays d leap
-          match st.isMonthSet, st.isDaySet with
-          | true, true => if month ≠ dt.month ∨ day ≠ dt.day then perr else pure dt
-          | true, false => if month ≠ dt.month then perr else pure { dt with day := day }
-          | false, true => if day ≠ dt.day then perr else pure { dt with month := month }
-          | false, false => pure { dt with month := month, day := day }
-    -- day of week
-    match st.dow with
-    | some d => do
-      let date ← Date.tryFromYmd dt.year dt.month dt.day
-      if Date.dayOfWeek date ≠ d then perr
-      else do
-        let v ← tryFromNDT ty dt
-        pure (v, reads)
-    | none => do
+/-- Year/month defaults from the clock after the field loop (types with a date only): the completed
+    `NaiveDateTime` and the number of clock reads (the crate caches the first read). -/
+def applyDefaults (ty : Ty) (st : St) (now : Clock) : NDT × Nat :=
+  if ty.info.HAS_DATE then
+    match st.isYearSet, st.isMonthSet with
+    | true, true => (st.dt, st.reads)
+    | true, false => ({ st.dt with month := now.month }, 1)
+    | false, false => ({ st.dt with year := now.year, month := now.month }, 1)
+    | false, true => ({ st.dt with year := now.year }, 1)
+  else (st.dt, st.reads)
+
+/-- Day of year (`DDD`): range check against the year's length, decoding to (month, day), and the cross-check /
+    completion against month and day fields. -/
+def resolveDoy (st : St) (dt : NDT) : Chk NDT :=
+  match st.doy with
+  | none => pure dt
+  | some d =>
+    let leap := isLeapYear dt.year
+    if d = 0 ∨ (¬ leap ∧ d > 365) ∨ (leap ∧ d > 366) then perr
+    else do
+      let (month, day) ← theMonthDayOfDays d leap
+      match st.isMonthSet, st.isDaySet with
+      | true, true => if month ≠ dt.month ∨ day ≠ dt.day then perr else pure dt
+      | true, false => if month ≠ dt.month then perr else pure { dt with day := day }
+      | false, true => if day ≠ dt.day then perr else pure { dt with month := month }
+      | false, false => pure { dt with month := month, day := day }
+
+/-- Weekday cross-check against the assembled date, then the type's `TryFrom<NaiveDateTime>`. -/
+def finish (ty : Ty) (st : St) (dt : NDT) (reads : Nat) : Chk (Int × Nat) :=
+  match st.dow with
+  | some d => do
+    let date ← Date.tryFromYmd dt.year dt.month dt.day
+    if Date.dayOfWeek date ≠ d then perr
+    else do
       let v ← tryFromNDT ty dt
       pure (v, reads)
+  | none => do
+    let v ← tryFromNDT ty dt
+    pure (v, reads)
+
+/-- `Formatter::parse::<_, T>(input)` (= `parse_internal::<_, T, false>`): value and clock reads. -/
+def parse (ty : Ty) (fields : List Field) (input : Bytes) (now : Clock) : Chk (Int × Nat) := do
+  let st ← parseFields ty now { s := input } fields
+  if ¬ (eatWhitespaces st.s).isEmpty then perr
+  else
+    let dr := applyDefaults ty st now
+    let dt ← resolveDoy st dr.1
+    finish ty st dt dr.2
 
 end Parser
 
